@@ -124,6 +124,11 @@ func mrowByName(n string) *mrow {
 			return &mrowsWide[i]
 		}
 	}
+	for i := range mrowsDressed {
+		if mrowsDressed[i].Name == n {
+			return &mrowsDressed[i]
+		}
+	}
 	return nil
 }
 
@@ -435,13 +440,15 @@ func TestC05_ArrivalOrdersEnumerated(t *testing.T) {
 func TestC05_ArrivalOrdersRandom(t *testing.T) {
 	currentT = t
 	rapid.Check(t, func(rt_ *rapid.T) {
-		all := len(mrows) + len(mrowsWide)
+		all := len(mrows) + len(mrowsWide) + len(mrowsDressed)
 		ri := rapid.IntRange(0, all-1).Draw(rt_, "row")
 		var row *mrow
 		if ri < len(mrows) {
 			row = &mrows[ri]
-		} else {
+		} else if ri < len(mrows)+len(mrowsWide) {
 			row = &mrowsWide[ri-len(mrows)]
+		} else {
+			row = &mrowsDressed[ri-len(mrows)-len(mrowsWide)]
 		}
 		k := rapid.SampledFrom(row.K).Draw(rt_, "k")
 		if k == 0 {
